@@ -480,7 +480,7 @@ fn gen_msg_c07(rng: &mut Rng, tier: Tier) -> msg::MsgScn {
         }
         let mut sel = Map::new();
         for n in names.iter().take(6) {
-            sel.insert(n.clone(), rng.pick(&[json!({"country": true}), json!({"x": {"y": true}}), json!([true]), json!([[true], {"a": true}]), json!(true), json!({}), json!("*"), json!("all"), json!(["*"]), json!({"*": true})]).clone());
+            sel.insert(n.clone(), rng.pick(&[json!({"country": true}), json!({"x": {"y": true}}), json!([true]), json!([[true], {"a": true}]), json!(true), json!({}), json!("*"), json!("*"), json!("all"), json!(["*"]), json!({"*": true})]).clone());
         }
         s.pres.push(msg::PresSpec::Holder { cred: *ci, selection: sel, kb: None });
     }
